@@ -267,13 +267,20 @@ _T["polygon-dup"] = ("Polygon", [[(-2, -2), (-2, 5), (-2, 5), (5, 5), (5, -2), (
                                  [(0, 0), (0, 2), (2, 2), (2, 2), (1, 0), (0, 0)]])
 _T["multiline-1-dup"] = ("MultiLineString", [[(-2, 0), (0, 0), (0, 0), (0, 5), (5, 2)]])
 
+# rings taken from a polygon (what Geometry.exterior / .interiors wrap), a collection inside a collection
+_T["ring-exterior"] = ("ExteriorOf", _T["polygon-hole"])
+_T["ring-interior"] = ("InteriorOf", _T["polygon-hole"])
+_T["collection-nested"] = ("GeometryCollection", [_T["collection"], _T["multipolygon"], _T["ring"]])
+
 KINDS = ("point", "multipoint", "line", "ring", "polygon", "polygon-hole", "multiline",
          "multipolygon", "collection", "empty",
          "multipoint-1", "multiline-1", "multipolygon-1", "collection-1",
-         "line-dup", "ring-dup", "polygon-dup", "multiline-1-dup")
+         "line-dup", "ring-dup", "polygon-dup", "multiline-1-dup",
+         "ring-exterior", "ring-interior", "collection-nested")
+BASE_KINDS = KINDS[:10]  # the quick tier crosses the other ("extra") kinds with fewer symmetries / spellings
 # area > 0: "auto" is defined
 AREA_KINDS = ("polygon", "polygon-hole", "multipolygon", "collection", "multipolygon-1", "collection-1",
-              "polygon-dup")
+              "polygon-dup", "collection-nested")
 
 # the 8 symmetries of the square, about the grid origin (so x=0 / y=0 lines stay on the axes)
 D4 = ((1, 0, 0, 1), (0, -1, 1, 0), (-1, 0, 0, -1), (0, 1, -1, 0),
@@ -309,6 +316,10 @@ def build(t, f):
         return sg.MultiPolygon([build(("Polygon", rings), f) for rings in data])
     if typ == "GeometryCollection":
         return sg.GeometryCollection([build(c, f) for c in data])
+    if typ == "ExteriorOf":
+        return build(data, f).exterior
+    if typ == "InteriorOf":
+        return build(data, f).interiors[0]
     raise AssertionError(typ)
 
 
@@ -409,7 +420,7 @@ def gen_seg_kinds(tier):
 
     def gen():
         for kind in KINDS:
-            for sym in range(8):
+            for sym in (range(8) if tier == "thorough" or kind in BASE_KINDS else (0, 1)):
                 for s in SCALES:
                     for off in offs:
                         for res in ress:
@@ -601,12 +612,13 @@ def gen_to_crs(tier):
         for di, (_, dst, places) in enumerate(DPAIRS):
             for pi in range(nplaces):
                 for kind in KINDS:
-                    for sym in syms:
+                    extra = not thorough and kind not in BASE_KINDS
+                    for sym in ((0,) if extra else syms):
                         # flags are full dimensions: well inside the valid areas and away from lon 180 every
                         # clause must hold whatever check_and_fix / wrapdateline say (wrapdateline only acts
                         # for a geographic destination)
                         flags = FLAGS if dst == 4326 else FLAGS[:2]
-                        for sp in spells:
+                        for sp in (("EPSG",) if extra else spells):
                             for res in TRES + (("auto",) if kind in AREA_KINDS else ()):
                                 for flag in flags:
                                     yield (di, pi, kind, sym, res, sp, flag)
@@ -980,8 +992,9 @@ def gen_long(tier):
         for api in LAPIS:
             for k in LK:
                 for di in range(len(LDIRS)):
-                    for pos in LPOS:
-                        for res in LRES:
+                    slim = tier != "thorough" and api == "segmented:polygon-hole"
+                    for pos in (LPOS[:1] if slim else LPOS):
+                        for res in (LRES[:1] if slim else LRES):
                             yield (api, k, di, pos, res, None, "plain")
         for shape in LSHAPES:
             for li, (_, dst, _, places) in enumerate(LPAIRS):
@@ -1206,7 +1219,7 @@ def gen_stale(tier):
                 for direction in ("from-edited", "to-edited"):
                     for hist in STALE_HIST:
                         for tform in ("crs-object", "text"):
-                            for kind in STALE_KINDS:
+                            for kind in (STALE_KINDS if tier == "thorough" else STALE_KINDS[:3]):
                                 for res0 in (None, 2.5):
                                     yield (di, partner, direction, hist, tform, kind, res0)
 
@@ -1346,7 +1359,7 @@ def gen_boundary(tier):
                         for L in BSCALES:
                             yield (api, f, di, oi, L)
         for api in ("densify", "segmented"):
-            for f in BHUGE:
+            for f in (BHUGE if tier == "thorough" else BHUGE[1:2]):
                 for di in range(len(LDIRS) if tier == "thorough" else 4):
                     for oi in ((0, 2) if tier == "thorough" else (0,)):
                         yield (api, f, di, oi, 1.0)
@@ -1377,7 +1390,7 @@ def run_boundary(case):
             fail("densify:input-list-modified", f"{msg}: the caller's list is now {given[:6]}{'...' if len(given) > 6 else ''}")
         if got is given:
             fail("densify:returns-input-list", f"{msg}: the returned list is the caller's list object")
-        again = densify(list(coords), res)
+        again = densify(list(coords), res) if f < 60000 else got
         if [tuple(c) for c in again] != [tuple(c) for c in got]:
             fail("densify:second-call-differs", f"{msg}: a second call returned {len(again)} vertices, the first {len(got)}")
         out_shp = sg.LineString([tuple(c) for c in got]) if len(got) > 1 else sg.LineString()
@@ -1563,7 +1576,8 @@ def run_odd(case):
 # ---------------------------------------------------------------------------------------------
 ENCODINGS = ("float", "int", "list", "np.float32", "np.float64", "np.int32", "negzero", "xyz-geojson", "ndarray")
 ENC_KINDS = ("point", "multipoint", "line", "polygon-hole", "multipolygon")
-ENC_PLACES = ((0, 0, 1), (1000, -2000, 16))  # integers below 2**24: exact in every encoding
+# integers below 2**24 (exact in every encoding); the last one has squared edge lengths beyond 2**31
+ENC_PLACES = ((0, 0, 1), (1000, -2000, 16), (0, 0, 16384))
 ENC_APIS = ("densify", "segmented", "to_crs", "to_crs-resolution")
 
 
@@ -1715,7 +1729,8 @@ def ns_def(i):
         name, text, fam = NS_DEFS[i]
         if text is None:
             text = pyproj.CRS.from_user_input(_LAEA).to_wkt()
-        _NS[i] = (name, text, pyproj.CRS.from_user_input(text), fam)
+        P = pyproj.CRS.from_user_input(text)
+        _NS[i] = (name, text, P, fam, P.to_epsg())  # to_epsg: pyproj's own identification (slow: once per process)
     return _NS[i]
 
 
@@ -1734,8 +1749,8 @@ def gen_near(tier):
 
 def run_near(case):
     a, b, hist, tform, kind, res0 = case
-    na, ta, Pa, fam = ns_def(a)
-    nb, tb, Pb, _ = ns_def(b)
+    na, ta, Pa, fam, ea = ns_def(a)
+    nb, tb, Pb, _, eb = ns_def(b)
     k = ("near", a, b)
     if k not in _TR:
         _TR[k] = (pyproj.Transformer.from_crs(Pa, Pb, always_xy=True), pyproj.Transformer.from_crs(Pb, Pa, always_xy=True))
@@ -1743,7 +1758,10 @@ def run_near(case):
     ox, oy, step = NS_PLACES[fam]
     shp = make_shape(kind, 0, ox, oy, step)
     res = None if res0 is None else res0 * step
-    same = Pa == Pb  # pyproj's verdict on the two definitions
+    kv = ("near-verdict", a, b)
+    if kv not in _TR:
+        _TR[kv] = Pa == Pb  # pyproj's verdict on the two definitions
+    same = _TR[kv]
     g = Geometry(shp, CRS(ta))
     dst_crs = CRS(tb)
     if hist == "both.epsg":
@@ -1762,7 +1780,6 @@ def run_near(case):
     out = g.to_crs(target, res)
     if first is not None and [tuple(x) for x in paths(first.geom)] != [tuple(x) for x in paths(out.geom)]:
         fail(f"{tag}:second-call-differs", f"{call}: the second identical call gave another geometry")
-    ea, eb = Pa.to_epsg(), Pb.to_epsg()
     if not same and ea is not None and ea == eb:
         # pyproj does not call the definitions equal but identifies both as the same EPSG code (a PROJ string
         # without datum against the EPSG entry; the transformation between them is the identity). The library
@@ -1774,6 +1791,202 @@ def run_near(case):
                 fail(f"{tag}:input-returned-unprojected", f"{call}: input returned although the transformation is not the identity")
             return r
     return _judge_between(r, fail, tag, call, g, out, shp, fwd, inv, Pb, res, same)
+
+
+# ---------------------------------------------------------------------------------------------
+# slice: every flag combination on geometries that cross the antimeridian / have vertices the target
+#        projection cannot map (documented behaviour of wrapdateline= and check_and_fix=)
+# ---------------------------------------------------------------------------------------------
+CROSS = (
+    # name, source EPSG (smooth across lon 180), box crossing lon 180 (x0, y0, x1, y1), resolution
+    ("pdc-mercator", 3832, (3.0e6, -2.0e6, 3.7e6, -1.5e6), 25000.0),
+    ("utm60-north", 32660, (618300.0, 1642500.0, 849000.0, 1876800.0), 25000.0),
+    ("utm60-south-of-equator", 32660, (618300.0, -1876800.0, 849000.0, -1642500.0), 25000.0),
+)
+CROSS_KINDS = ("polygon", "polygon-hole", "line", "multipoint")
+ORTHO = "+proj=ortho +lat_0=40 +lon_0=0 +datum=WGS84 +units=m +no_defs"  # far hemisphere does not project
+UNMAPPABLE = {
+    "line": sg.LineString([(-30.0, 10.0), (20.0, 50.0), (170.0, -40.0), (175.0, -45.0), (60.0, 60.0), (100.0, -80.0)]),
+    "multipoint": sg.MultiPoint([(170.0, -40.0), (5.0, 40.0), (-170.0, -50.0), (30.0, 30.0)]),
+    "point": sg.Point(175.0, -45.0),
+    "line-one-left": sg.LineString([(170.0, -40.0), (20.0, 50.0), (175.0, -45.0)]),
+    "line-two-left": sg.LineString([(170.0, -40.0), (20.0, 50.0), (175.0, -45.0), (30.0, 30.0)]),
+}
+
+
+def cross_shape(kind, box):
+    x0, y0, x1, y1 = box
+
+    def P(u, v):
+        return (x0 + u * (x1 - x0), y0 + v * (y1 - y0))
+
+    if kind == "polygon":
+        return sg.Polygon([P(0, 0), P(0, 1), P(1, 1), P(1, 0), P(0, 0)])
+    if kind == "polygon-hole":
+        return sg.Polygon([P(0, 0), P(0, 1), P(1, 1), P(1, 0), P(0, 0)],
+                          [[P(0.3, 0.3), P(0.95, 0.3), P(0.95, 0.7), P(0.3, 0.7), P(0.3, 0.3)]])
+    if kind == "line":
+        return sg.LineString([P(0, 0.1), P(1, 0.9), P(0.95, 0.2), P(0.05, 0.5)])
+    return sg.MultiPoint([P(0.1, 0.1), P(0.9, 0.9), P(0.5, 0.5), P(0.99, 0.2)])
+
+
+def gen_cross(tier):
+    def gen():
+        for si in range(len(CROSS)):
+            for kind in CROSS_KINDS:
+                for flag in FLAGS:
+                    for res0 in (None, "finite"):
+                        yield ("crossing", si, kind, flag, res0)
+        for kind in UNMAPPABLE:
+            for flag in FLAGS:
+                yield ("unmappable", 0, kind, flag, None)
+
+    return gen
+
+
+def _rings_of(part):
+    if part.geom_type == "Polygon":
+        return [list(part.exterior.coords)] + [list(h.coords) for h in part.interiors]
+    return [list(part.coords)]
+
+
+def run_cross(case):
+    import shapely  # pylint: disable=import-outside-toplevel
+
+    what, si, kind, flag, res0 = case
+    r = R(outcome=f"{what}:{kind}:{flag}:{'res' if res0 else 'nores'}")
+    fail = Once(r)
+    kw = flag_kw(flag)
+    if what == "unmappable":
+        shp = UNMAPPABLE[kind]
+        P_dst = pyproj.CRS.from_user_input(ORTHO)
+        k = ("ortho",)
+        if k not in _TR:
+            _TR[k] = pyproj.Transformer.from_crs(pp(4326), P_dst, always_xy=True)
+        cin = [c for _, _, cc in paths(shp) for c in cc]
+        want = _tr_coords(_TR[k], cin)
+        fin = [w for w in want if all(math.isfinite(v) for v in w)]
+        if len(fin) == len(want):
+            raise AssertionError("harness: the unmappable shapes must have vertices the target cannot map")
+        tag = f"to_crs:unmappable-vertices:{kind}:{flag}"
+        call = f"Geometry({shp.wkt}, EPSG:4326).to_crs('{ORTHO}'{', ' + flag if flag != 'plain' else ''})"
+        out = Geometry(shp, "EPSG:4326").to_crs(ORTHO, **kw)
+        got = [c for _, _, cc in paths(out.geom) for c in cc]
+        if "check_and_fix" in flag:
+            # documented: vertices that did not project cleanly are removed (a line keeps at least 2 points or none)
+            expect = fin
+            if kind.startswith("line") and len(expect) < 2:
+                expect = []
+            if len(got) != len(expect) or not all(_vclose(a, b) for a, b in zip(got, expect)):
+                fail(f"{tag}:not-the-mappable-vertices-in-order",
+                     f"{call}: got {got}, the vertices pyproj can map are {expect} (all images: {want})")
+        else:
+            if out.geom.geom_type != shp.geom_type or len(got) != len(want) or \
+                    not all(_vclose(a, b) for a, b in zip(got, want)):
+                fail(f"{tag}:vertex-differs-from-pyproj", f"{call}: got {got}, pyproj gives {want}")
+        return r
+
+    name, src, box, resv = CROSS[si]
+    res = resv if res0 else None
+    shp = cross_shape(kind, box)
+    g = Geometry(shp, f"EPSG:{src}")
+    tag = f"to_crs:crossing:{kind}:{flag}"
+    call = (f"[{name}] Geometry({shp.wkt[:200]}, EPSG:{src}).to_crs(EPSG:4326, resolution={res!r}"
+            f"{', ' + flag if flag != 'plain' else ''})")
+    out = g.to_crs("EPSG:4326", res, **kw)
+    if out.crs is None or out.crs.proj.to_epsg() != 4326:
+        fail("to_crs:result-crs", f"{call}: labelled {out.crs}")
+    if flag == "check_and_fix" and kind.startswith("polygon"):
+        # no cut: the projected ring jumps across the whole map and may be invalid, which check_and_fix is
+        # documented to repair with buffer(0). Valid after plain projection => untouched; otherwise => valid, finite.
+        plain = g.to_crs("EPSG:4326", res)
+        if plain.geom.is_valid:
+            r.outcome += ":valid-after-projection"
+            if [tuple(x) for x in paths(plain.geom)] != [tuple(x) for x in paths(out.geom)]:
+                fail(f"{tag}:valid-geometry-altered", f"{call}: valid after projection but check_and_fix changed it")
+        else:
+            r.outcome += ":invalid-after-projection"
+            arr = np.asarray([c for _, _, cc in paths(out.geom) for c in cc], dtype="float64").reshape(-1, 2)
+            if not out.geom.is_valid or not np.isfinite(arr).all():
+                fail(f"{tag}:not-fixed", f"{call}: result is invalid or not finite: {out.wkt[:200]}")
+        return r
+    if "wrapdateline" not in flag or kind == "multipoint":
+        # nothing to cut: plain faithful projection
+        if res is None and nverts(paths(out.geom)) != nverts(paths(shp)):
+            fail(f"{tag}:vertex-count-changed", f"{call}: {nverts(paths(shp))} vertices became {nverts(paths(out.geom))}")
+        judge_long(fail, tag, call, shp, out.geom, INF if res is None else res, src, 4326)
+        return r
+
+    # wrapdateline=True on a geometry that crosses lon 180
+    og = out.geom
+    parts = list(og.geoms) if og.geom_type.startswith("Multi") or og.geom_type == "GeometryCollection" else [og]
+    want_part = "Polygon" if kind.startswith("polygon") else "LineString"
+    if not parts or any(p.geom_type != want_part or p.is_empty for p in parts):
+        fail(f"{tag}:part-types", f"{call}: result {og.geom_type} of {[p.geom_type for p in parts]}")
+        return r
+    r.outcome += f":{len(parts)}-parts"
+    inv = fresh_tr(4326, src)
+    M = maxabs(paths(shp))
+    tol = 25.0 + REL_RT * M  # clip_lon180 may move a vertex by 1e-4 deg (about 11 m) onto the meridian
+    total = 0.0
+    perim = 0.0
+    allv = []
+    for pi_, part in enumerate(parts):
+        rings = _rings_of(part)
+        arr = np.asarray([c for ring in rings for c in ring], dtype="float64")
+        allv.append(arr)
+        if not np.isfinite(arr).all() or np.abs(arr[:, 0]).max() > 180.0 or np.abs(arr[:, 1]).max() > 90.0:
+            fail(f"{tag}:longitude-outside-180", f"{call}: part #{pi_} has coordinates outside [-180,180]x[-90,90] / non-finite")
+            return r
+        if arr[:, 0].max() - arr[:, 0].min() >= 180.0:
+            fail(f"{tag}:part-spans-the-globe",
+                 f"{call}: part #{pi_} of the result runs from lon {arr[:, 0].min()!r} to {arr[:, 0].max()!r} "
+                 f"(result {og.geom_type}, area {og.area!r} deg^2)")
+            return r
+        back_rings = []
+        for ring in rings:
+            a = np.asarray(ring, dtype="float64")
+            X, Y = inv.transform(a[:, 0].copy(), a[:, 1].copy())
+            b = np.column_stack([X, Y])
+            back_rings.append(b)
+            d = shapely.distance(shp, shapely.points(b))
+            w = int(np.argmax(d))
+            if not d[w] <= tol:
+                fail(f"{tag}:vertex-off-the-input",
+                     f"{call}: output vertex {tuple(a[w].tolist())} maps back to {tuple(b[w].tolist())}, {float(d[w])!r} "
+                     f"away from the input geometry")
+            if res is not None:
+                cut = np.abs(a[:, 0]) == 180.0
+                el = np.hypot(np.diff(b[:, 0]), np.diff(b[:, 1]))
+                el = np.where(cut[:-1] & cut[1:], 0.0, el)  # edges along the cut are not edges of the input
+                w = int(np.argmax(el))
+                if not el[w] <= res * (1 + REL) + 2 * tol:
+                    fail(f"{tag}:piece-longer-than-resolution",
+                         f"{call}: output edge {tuple(a[w].tolist())}->{tuple(a[w + 1].tolist())} is {float(el[w])!r} long "
+                         f"in the source CRS > resolution {res!r}")
+        if want_part == "Polygon":
+            bp = sg.Polygon(back_rings[0], back_rings[1:])
+            total += bp.area
+            perim += bp.length
+        else:
+            total += sg.LineString(back_rings[0]).length
+    if want_part == "Polygon":
+        if not abs(total - shp.area) <= tol * (perim + shp.length):
+            fail(f"{tag}:area-not-preserved",
+                 f"{call}: the parts, mapped back, cover {total!r} m^2, the input {shp.area!r} m^2")
+    else:
+        if not abs(total - shp.length) <= tol * (2 * len(parts) + 2):
+            fail(f"{tag}:length-not-preserved",
+                 f"{call}: the parts, mapped back, are {total!r} m long, the input {shp.length!r} m")
+    # every original vertex is still there
+    V = np.vstack(allv)
+    for _, _, cin in paths(shp):
+        for c, w_ in zip(cin, project(src, 4326, cin)):
+            dd = np.hypot(V[:, 0] - w_[0], V[:, 1] - w_[1]).min()
+            if not dd <= 1.5e-4:
+                fail(f"{tag}:original-vertex-lost", f"{call}: original vertex {c} -> {w_} is {float(dd)!r} deg from the nearest output vertex")
+                break
+    return r
 
 
 def slices(tier):
@@ -1792,7 +2005,7 @@ def slices(tier):
                  "every call in a child process killed after 2 s", shards=32),
         e1.Slice("encodings", gen_enc(tier), run_enc,
                  "coordinates as float / int / list / np.float32 / np.float64 / np.int32 / -0.0 / 3-D GeoJSON (z dropped) "
-                 "/ ndarray through the library constructors x 5 kinds x 2 placements x {densify, segmented, to_crs, "
+                 "/ ndarray through the library constructors x 5 kinds x 3 placements x {densify, segmented, to_crs, "
                  "to_crs(resolution)}: all clauses + identical to the float-tuple result"),
         e1.Slice("boundary-edges", gen_boundary(tier), run_boundary,
                  "edge length / resolution in {0.9, 0.999, 1-1e-12, 1, 1+1e-12, 1.001, 1.1, 1.999, 2.001, 2.9, 3.1} x 8 "
@@ -1802,7 +2015,7 @@ def slices(tier):
                  "all ordered vertex pairs of {-2,-1,0,1,2,5}^2 (incl. zero-length) x scale x offset x resolution; "
                  "densify() and line.segmented(); thorough adds all two-edge paths on {-1,0,2}^2"),
         e1.Slice("segmented-kinds", gen_seg_kinds(tier), run_seg_kinds,
-                 "18 kinds (incl. single-part multi-geometries and repeated consecutive vertices) x 8 symmetries x scale x "
+                 "21 kinds (incl. single-part multi-geometries, repeated consecutive vertices, rings of a polygon, nested collection) x 8 symmetries x scale x "
                  "offset x resolution x {no crs, crs}"),
         e1.Slice("to_crs", gen_to_crs(tier), run_to_crs,
                  "8 directed CRS pairs x placements inside both valid areas x kinds x symmetries x "
@@ -1818,6 +2031,10 @@ def slices(tier):
                  "without EPSG code as PROJ string and as WKT, the same shifted by 1e-6 deg) x history {cold, .epsg "
                  "read, called twice, another target first} x target as object/text x {point, polygon-with-hole} x "
                  "resolution {None, finite}; unchanged only where pyproj calls the definitions equal"),
+        e1.Slice("to_crs-crossing", gen_cross(tier), run_cross,
+                 "polygon / polygon-with-hole / line / multipoint crossing lon 180 from EPSG:3832 and 32660 x 4 flag "
+                 "combinations x resolution {None, 25 km}; lines / multipoints / points with vertices an orthographic "
+                 "target cannot map x 4 flag combinations"),
         e1.Slice("to_crs-same", gen_same(tier), run_same,
                  "3 CRSs x 8 spellings (incl. PROJJSON dict, mixed case) of the geometry's CRS x 8 of the target x kinds x resolution"),
         e1.Slice("to_crs-nocrs", gen_nocrs(tier), run_nocrs,
